@@ -844,6 +844,8 @@ func vc28Obs(t *testing.T, err error) []interface{} {
 			sub = "msig_" + msub()
 		case errors.Is(err, crypto.ErrBatchHasFailedSigs):
 			sub = "batch"
+		case has("rejected by logic err="): // logic.EvalError's own text
+			sub = "evalerr"
 		case has("rejected by logic"):
 			sub = "rejected"
 		case has(" invalid : transaction "):
@@ -871,8 +873,11 @@ func TestVerifC28(t *testing.T) {
 			UpgradeState: bookkeeping.UpgradeState{CurrentProtocol: pname},
 		}
 		k := 1 + r.Intn(3)
-		if r.Intn(8) == 0 {
+		switch r.Intn(8) {
+		case 0:
 			k = 1 + r.Intn(16)
+		case 1, 2:
+			k = 1
 		}
 		if c == 7 {
 			k = 0
@@ -882,8 +887,8 @@ func TestVerifC28(t *testing.T) {
 		txs := make([]transactions.Transaction, k)
 		for i := range plans {
 			plans[i] = u.randPlan()
-			if k > 1 && plans[i].kind == vc28Heartbeat && r.Intn(3) > 0 {
-				plans[i].kind = vc28Sig
+			if k > 1 && (plans[i].kind == vc28Heartbeat || plans[i].kind == vc28StateProof) && r.Intn(4) > 0 {
+				plans[i].kind = vc28Sig // these are only well-formed on their own
 			}
 			auths[i] = u.planAuthorizer(plans[i])
 			sender := auths[i]
